@@ -1,7 +1,7 @@
 (* C02 — Buffer consumer: Commit/Rollback give transactional at-least-once consumption. Statements only. *)
 From Coq Require Import List ZArith Bool Arith.
 From BB.Model Require Import Buffer.
-From BB.Proofs Require Buffer.
+From BB.Proofs Require Buffer BufferRange.
 Import ListNotations.
 
 (* Rollback zeroes the read count and nothing else: the following Gets therefore return positions commit, commit+1, …
@@ -50,3 +50,137 @@ Theorem C02_commit_permanent : forall evs s c k s1 s2 v,
              nth_error (log s1) (ccommit k1 + cdelta k1) = Some v /\ cstart k <= ccommit k1 + cdelta k1.
 Proof. exact Proofs.Buffer.committed_never_returned_again. Qed.
 Print Assumptions C02_commit_permanent.
+
+(* ===================== Range (package Range and Buffer.Range) ===================== *)
+(* C02 — Range (package bigbuff.Range and method Buffer.Range): commit after the callback, rollback and re-delivery of the
+   in-flight value on panic / failure, Buffer.Range stops at the end of the buffer instead of blocking.  Statements only.
+
+   [range_loop fuel bounded s c script visited0] is one Range call of consumer c from state s, run without interleaving:
+   per iteration  Get -> callback (script entry: continue / stop / panic / put a value and continue) -> Diff (Buffer.Range
+   only) -> Commit, with Rollback on panic or failure.  That order is the DEFINITION of range_loop (Model/Buffer.v), tied
+   to bigbuff.go func Range / buffer.go func (b *Buffer) Range by the correspondence check; the theorems below state what
+   follows from it.  The result is (final state, values passed to the callback, how the call ended). *)
+
+
+(* the two entry points are range_loop with enough fuel; Buffer.Range first tests Diff and may return at once *)
+Theorem C02_range_pkg_is_loop : forall s c script,
+  pkg_range s c script = range_loop (S (S (length (log s) + length script))) false s c script [].
+Proof. exact Proofs.BufferRange.pkg_range_is_loop. Qed.
+Print Assumptions C02_range_pkg_is_loop.
+
+Theorem C02_range_buffer_is_loop : forall s c k script,
+  getc s c = Some k ->
+  buffer_range s c script = (s, [], ReNil) \/
+  buffer_range s c script = range_loop (S (length (log s) + length script)) true s c script [].
+Proof. exact Proofs.BufferRange.buffer_range_is_loop. Qed.
+Print Assumptions C02_range_buffer_is_loop.
+
+(* fuel is never the reason a run ends *)
+Theorem C02_range_fuel_enough : forall fuel b s c script visited0 s' visited e,
+  length script < fuel -> range_loop fuel b s c script visited0 = (s', visited, e) -> e <> ReFuel.
+Proof. exact Proofs.BufferRange.range_loop_fuel_enough. Qed.
+Print Assumptions C02_range_fuel_enough.
+
+(* Main specification.  For a consumer with nothing pending at entry and every way the call can end (stop, script
+   exhausted, panic, Get error or would-park, fuel):
+   nothing is left uncommitted; the n values visited are exactly the consecutive log entries from the entry commit point
+   (source order, no gap, no duplicate); all of them are committed, except the in-flight value of a panicking callback;
+   the base is unchanged; the log grew by exactly the values put by the callbacks that ran, in order; no other consumer is
+   touched; the consumer's registration / cancellation and the buffer's closed flag are unchanged; the invariant holds. *)
+Theorem C02_range_loop_spec : forall fuel bounded s c k script visited0 s' visited e,
+  Proofs.Buffer.Inv s -> getc s c = Some k -> cdelta k = 0 ->
+  range_loop fuel bounded s c script visited0 = (s', visited, e) ->
+  exists k' n vs,
+    getc s' c = Some k' /\ cdelta k' = 0 /\
+    visited = visited0 ++ vs /\ length vs = n /\
+    (forall i, i < n -> nth_error vs i = nth_error (log s') (ccommit k + i)) /\
+    ccommit k' = ccommit k + (match e with RePanic => n - 1 | _ => n end) /\
+    (e = RePanic -> 1 <= n) /\
+    base s' = base s /\
+    log s' = log s ++ flat_map (fun x => match x with CbPutTrue v => [v] | _ => [] end) (firstn n script) /\
+    (forall c', c' <> c -> getc s' c' = getc s c') /\
+    Proofs.Buffer.Inv s' /\
+    creg k' = creg k /\ ccancel k' = ccancel k /\ bclosed s' = bclosed s.
+Proof. exact Proofs.BufferRange.range_loop_spec. Qed.
+Print Assumptions C02_range_loop_spec.
+
+(* Panic: the in-flight value was rolled back, it sits at the consumer's cursor, and the very next Get of that consumer
+   returns exactly it (no side condition: Range changes none of the flags Get checks). *)
+Theorem C02_range_panic_redelivers : forall fuel bounded s c k script visited0 s' visited d,
+  Proofs.Buffer.Inv s -> getc s c = Some k -> cdelta k = 0 ->
+  range_loop fuel bounded s c script visited0 = (s', visited, RePanic) ->
+  visited <> [] /\
+  exists k' s'', getc s' c = Some k' /\ cdelta k' = 0 /\
+    nth_error (log s') (ccommit k') = Some (last visited d) /\
+    step s' (OGet c) = (s'', RVal (last visited d)).
+Proof. exact Proofs.BufferRange.range_panic_redelivers. Qed.
+Print Assumptions C02_range_panic_redelivers.
+
+(* Get failure: everything visited is committed, nothing pending, the cursor is entry commit + number visited; the next
+   successful read of this consumer (in any later state where its record is unchanged) returns the first value not
+   visited. *)
+Theorem C02_range_get_failure_keeps_cursor : forall fuel bounded s c k script visited0 s' visited,
+  Proofs.Buffer.Inv s -> getc s c = Some k -> cdelta k = 0 ->
+  range_loop fuel bounded s c script visited0 = (s', visited, ReErr) ->
+  exists k' vs,
+    visited = visited0 ++ vs /\
+    getc s' c = Some k' /\ cdelta k' = 0 /\ ccommit k' = ccommit k + length vs /\
+    (forall i, i < length vs -> nth_error vs i = nth_error (log s') (ccommit k + i)) /\
+    (forall s2 s3 v, getc s2 c = Some k' -> step s2 (OGet c) = (s3, RVal v) ->
+                     nth_error (log s2) (ccommit k + length vs) = Some v).
+Proof. exact Proofs.BufferRange.range_get_failure_keeps_cursor. Qed.
+Print Assumptions C02_range_get_failure_keeps_cursor.
+
+(* Commit only after the callback returned.  The callback's only effect in the model is CbPutTrue's Put: in the iteration
+   for such an entry the Commit is taken in the state sp that already contains the put value, and in sp the visited value
+   x is still uncommitted (cursor at the entry commit point, one read pending); only the Commit moves the cursor past x. *)
+Theorem C02_range_commit_after_callback : forall f bounded s c k pv rest visited0 s1 x,
+  Proofs.Buffer.Inv s -> getc s c = Some k -> cdelta k = 0 -> step s (OGet c) = (s1, RVal x) ->
+  let sp := fst (step s1 (OPut [pv])) in
+  exists s2 k2,
+    log sp = log s ++ [pv] /\
+    getc sp c = Some (c_get k (ccommit k)) /\
+    step sp (OCommit c) = (s2, ROk) /\
+    getc s2 c = Some k2 /\ ccommit k2 = S (ccommit k) /\ cdelta k2 = 0 /\ log s2 = log s ++ [pv] /\
+    range_loop (S f) bounded s c (CbPutTrue pv :: rest) visited0 =
+      if (if bounded then match snd (step sp (ODiff c)) with RDiff n true => (0 <? n)%Z | _ => false end else true)
+      then range_loop f bounded s2 c rest (visited0 ++ [x]) else (s2, visited0 ++ [x], ReNil).
+Proof. exact Proofs.BufferRange.range_commit_after_callback. Qed.
+Print Assumptions C02_range_commit_after_callback.
+
+(* ... and for the whole run: the value put by the callback of the i-th visited value is in the final log *)
+Theorem C02_range_callback_put_in_log : forall fuel bounded s c k script visited0 s' visited e i pv,
+  Proofs.Buffer.Inv s -> getc s c = Some k -> cdelta k = 0 ->
+  range_loop fuel bounded s c script visited0 = (s', visited, e) ->
+  length visited0 + i < length visited -> nth_error script i = Some (CbPutTrue pv) ->
+  In pv (log s').
+Proof. exact Proofs.BufferRange.range_callback_put_in_log. Qed.
+Print Assumptions C02_range_callback_put_in_log.
+
+(* Buffer.Range, callbacks that all continue (at least as many as the backlog) and put nothing: it visits exactly the
+   backlog -- everything from the consumer's commit point to the end of the buffer -- commits it, and ends with nil. *)
+Theorem C02_range_buffer_stops_at_end : forall s c k m s' visited e,
+  Proofs.Buffer.Inv s -> getc s c = Some k -> cdelta k = 0 -> creg k = true -> ccancel k = false -> bclosed s = false ->
+  base s <= ccommit k -> length (log s) - ccommit k <= m ->
+  buffer_range s c (repeat CbTrue m) = (s', visited, e) ->
+  e = ReNil /\ visited = skipn (ccommit k) (log s) /\ length visited = length (log s) - ccommit k /\
+  log s' = log s /\ base s' = base s /\ (forall c', c' <> c -> getc s' c' = getc s c') /\
+  exists k', getc s' c = Some k' /\ ccommit k' = length (log s) /\ cdelta k' = 0.
+Proof. exact Proofs.BufferRange.buffer_range_stops_at_end. Qed.
+Print Assumptions C02_range_buffer_stops_at_end.
+
+(* with an empty backlog it returns at once whatever the callbacks would do: no Get is issued *)
+Theorem C02_range_buffer_empty_backlog : forall s c k script,
+  getc s c = Some k -> creg k = true -> cdelta k = 0 -> ccommit k = length (log s) ->
+  buffer_range s c script = (s, [], ReNil).
+Proof. exact Proofs.BufferRange.buffer_range_empty_backlog. Qed.
+Print Assumptions C02_range_buffer_empty_backlog.
+
+(* For EVERY script (callbacks may stop, panic, put values): Buffer.Range of an open, registered, non-evicted consumer
+   never ends with an error -- in particular never because a Get would have parked -- and never runs out of fuel. *)
+Theorem C02_range_buffer_never_blocks : forall s c k script s' visited e,
+  Proofs.Buffer.Inv s -> getc s c = Some k -> cdelta k = 0 -> creg k = true -> ccancel k = false -> bclosed s = false ->
+  base s <= ccommit k ->
+  buffer_range s c script = (s', visited, e) -> e = ReNil \/ e = RePanic.
+Proof. exact Proofs.BufferRange.buffer_range_never_blocks. Qed.
+Print Assumptions C02_range_buffer_never_blocks.
